@@ -7,7 +7,7 @@ import (
 	"golang.org/x/tools/go/ssa"
 )
 
-func runSelftest() int { return 0 }
+
 
 func runDump(args []string) {
 	p := loadProgram(repoDir())
